@@ -152,7 +152,7 @@ def check(fx, rep, tier):
         c01.check_crate(fx, sub, fx.crate('zlink_core', cfg), cfg)
     n5 = 0
     for i in sub.insts:
-        if i.rule == 'R01.2':
+        if i.rule in ('R01.2', 'R01.6'):
             n5 += 1
             (rep.ok if i.ok else rep.bad)('R07.5', i.key, i.where, i.msg if i.ok else i.msg + ' - a receive restarted after an abandonment takes the wrong branch', i.detail)
     if not n5:
